@@ -107,6 +107,34 @@ func newC17World() *c17World {
 	return c
 }
 
+// withReentrantHandler adds connection D and the application handler that calls back into the stack (only the
+// scenarios that use it pay for it).
+func (c *c17World) withReentrantHandler() {
+	_ = spine.Events.Subscribe(&c17Reenter{c: c})
+	c.w.Connect("D", "dD")
+	rt.WaitIdle()
+}
+
+type c17Reenter struct {
+	c    *c17World
+	done bool
+}
+
+func (h *c17Reenter) HandleEvent(p api.EventPayload) {
+	if p.EventType != api.EventTypeDeviceChange || p.ChangeType != api.ElementChangeRemove || p.Ski != "D" || c17once(&h.done) {
+		return
+	}
+	h.c.w.L.RemoveRemoteDeviceConnection("D")
+	_ = h.c.w.L.RemoteDevices()
+}
+
+//go:norace
+func c17once(b *bool) bool {
+	was := *b
+	*b = true
+	return was
+}
+
 type c17Op struct {
 	name string
 	f    func(c *c17World)
@@ -258,6 +286,12 @@ func c17Ops() []c17Op {
 			p := c.w.ConnectAndAnnounce("C", "dC", []world.EntSpec{clientEntity([]uint{1})})
 			p.Deliver(p.SubscribeCall(world.FAddr("dC", []uint{1}, 1), srvAddr("L1lc", true), model.FeatureTypeTypeLoadControl))
 		}},
+		{"local:application-handler-reenters", func(c *c17World) {
+			// an application event handler that calls back into the stack when it is told that a connection is gone
+			// (it makes sure the connection is removed — a call that publishes itself — and looks at the device list)
+			// (handler and connection D are part of the prepared world)
+			c.w.L.RemoveRemoteDeviceConnection("D")
+		}},
 		{"A:reply+result", func(c *c17World) {
 			c.a.Deliver(c.a.Datagram(cliAddr("A", "e1f4", true), c.cli.Address(), model.CmdClassifierTypeReply, false, ptrCtr(c.reqCtr), lim(2)))
 			c.a.Deliver(c.a.Datagram(cliAddr("A", "e1f4", true), c.cli.Address(), model.CmdClassifierTypeResult, false, ptrCtr(c.reqCtr),
@@ -333,9 +367,15 @@ func c17Ops() []c17Op {
 	}
 }
 
-var c17Narrow = map[string]bool{"local:approve-second-write-once": true, "local:approval-timeout-elapses": true}
+var c17Narrow = map[string]bool{"local:approve-second-write-once": true, "local:approval-timeout-elapses": true, "local:application-handler-reenters": true}
 var c17ApprovalGroup = map[string]bool{"local:approve-second-write-once": true, "local:approval-timeout-elapses": true, "local:approve-pending-write": true,
-	"local:RemoveRemoteDeviceConnection(B)": true, "B:write-unbound": true, "A:write": true, "A:entity-removed": true, "B:full-discovery-notify": true}
+	"local:RemoveRemoteDeviceConnection(B)": true, "B:write-unbound": true, "A:write": true, "A:entity-removed": true, "B:full-discovery-notify": true,
+	"local:application-handler-reenters": true}
+
+var c17Long = map[string]bool{"local:heartbeat-without-feature": true, "local:heartbeat-stop+start": true, "local:application-handler-reenters": true,
+	"local:RemoveRemoteDeviceConnection(B)": true}
+
+var c17ReenterGroup = map[string]bool{"A:write": true, "local:RemoveRemoteDeviceConnection(B)": true, "local:application-handler-reenters": true}
 
 func c17Scenarios(thorough bool) []*engine.SScenario {
 	ops := c17Ops()
@@ -347,10 +387,21 @@ func c17Scenarios(thorough bool) []*engine.SScenario {
 			}
 			name += ops[s].name
 		}
-		return &engine.SScenario{Name: name, TimersFree: false, MaxTicks: 1, Heavy: len(sel) > 2, Run: func(cfg rt.Config) rt.Outcome {
+		// three threads, and the pairs of the two longest operations among themselves, are explored one bound less in the quick tier
+		heavy := len(sel) > 2
+		if len(sel) == 2 && c17Long[ops[sel[0]].name] && c17Long[ops[sel[1]].name] {
+			heavy = true
+		}
+		return &engine.SScenario{Name: name, TimersFree: false, MaxTicks: 1, Heavy: heavy, Run: func(cfg rt.Config) rt.Outcome {
 			var dig string
 			res := rt.Execute(cfg, func() {
 				c := newC17World()
+				for _, s := range sel {
+					if ops[s].name == "local:application-handler-reenters" {
+						c.withReentrantHandler()
+						break
+					}
+				}
 				rt.BeginExplore()
 				for _, s := range sel {
 					s := s
@@ -379,6 +430,11 @@ func c17Scenarios(thorough bool) []*engine.SScenario {
 			}
 			// the two operations around the approval timeout are paired with what touches pending writes only
 			if (c17Narrow[ops[i].name] && !c17ApprovalGroup[ops[j].name]) || (c17Narrow[ops[j].name] && !c17ApprovalGroup[ops[i].name]) {
+				continue
+			}
+			// the re-entering application handler: against a message of a peer, a removal and itself
+			const re = "local:application-handler-reenters"
+			if (ops[i].name == re && !c17ReenterGroup[ops[j].name]) || (ops[j].name == re && !c17ReenterGroup[ops[i].name]) {
 				continue
 			}
 			scs = append(scs, mk([]int{i, j}))
